@@ -251,7 +251,7 @@ func c01exec(c *h.Ctx, cs *h.Case) {
 		c01net(c, cs)
 		return
 	}
-	if len(cs.Ops) > 0 && strings.HasPrefix(cs.Ops[0], "c01 send ") {
+	if len(cs.Ops) > 0 && (strings.HasPrefix(cs.Ops[0], "c01 send ") || strings.HasPrefix(cs.Ops[0], "c01 sendx ")) {
 		c01send(c, cs)
 		return
 	}
